@@ -55,7 +55,7 @@ int main(void)
 				size_t add = last ? n - ip : (size_t)strtoul(st + 1, NULL, 10);
 				if (add > n - ip) add = n - ip;
 				lzma_action a = act == 'R' ? LZMA_RUN : act == 'S' ? LZMA_SYNC_FLUSH : act == 'F' ? LZMA_FULL_FLUSH : act == 'B' ? LZMA_FULL_BARRIER : LZMA_FINISH;
-				size_t target = ip + add; int guard = 0;
+				size_t target = ip + add; int guard = 0, bufs = 0;
 				lzma_ret cr = LZMA_OK;
 				// for RUN hand the bytes over (possibly in pieces); for flush actions all pending input must be given at once
 				while (1) {
@@ -70,7 +70,10 @@ int main(void)
 					size_t di = il - s.avail_in, dd = olen - s.avail_out;
 					memcpy(out + op, ob, dd); ip += di; op += dd; free(ib); free(ob);
 					if (a != LZMA_RUN) target = ip + (il - di);  // pending stays identical
-					if (cr == LZMA_BUF_ERROR) { if (++guard > 100) break; continue; }
+					// LZMA_BUF_ERROR is legitimate after two calls that could not move anything (e.g. two zero-size output
+					// buffers in a row); only a long unbroken series of them means the coder is stuck
+					if (cr == LZMA_BUF_ERROR) { if (++bufs > 200) break; continue; }
+					if (di || dd) bufs = 0;
 					if (cr != LZMA_OK) break;
 					if (a == LZMA_RUN && ip == target) break;
 					if (++guard > 40000000) { cr = 99; break; }
